@@ -58,13 +58,15 @@ impl InstructionGenerator {
         match step {
             Some(s) => {
                 let step_pos = s.pos();
-                // load 0 to B
-                self.push_load(Variant::VInteger(0), pos);
-                self.push(Instruction::CopyAToB, pos);
                 // load step to A
                 self.generate_expression_instructions(s);
                 // A to D (step is in D)
                 self.push(Instruction::CopyAToD, pos);
+                // load 0 to B (after the step, because evaluating the step might use B)
+                self.push_load(Variant::VInteger(0), pos);
+                self.push(Instruction::CopyAToB, pos);
+                // step back to A
+                self.push(Instruction::CopyDToA, pos);
                 // is step < 0 ?
                 self.push(Instruction::Less, pos);
                 self.jump_if_false("test-positive-or-zero", pos);
